@@ -143,7 +143,40 @@ def nested_interrupt_resume(case, msg, observed=None):
     return "/" in (case.get("node") or "") and "." in (case.get("key") or "") and "pauses at the same interrupt again" in (msg or "")
 
 
-MATCHERS = {f.__name__: f for f in (nested_interrupt_resume, equal_but_distinct_default, stop_iteration_async, waiter_with_edge_default, ambiguous_cycle_entry, empty_map_silent, viz_renamed_boundary, interrupt_handler_wrapped, interrupt_with_edge_default, bound_output_name)}
+def viz_shared_producer_in_container(case, msg, observed=None):
+    """A drawing is unfaithful only because, of SEVERAL producers of one output name inside an expanded nested graph, just one
+    is drawn feeding a consumer outside that graph (the renderer resolves 'the' internal producer of a container output):
+    every problem is a dependency not drawn whose producer is such a nested node and whose consumer lies outside its graph."""
+    if not isinstance(observed, dict) or not isinstance(case, dict) or not case.get("graph"):
+        return False
+    probs = observed.get("problems") or []
+    if not probs or not all(p.get("code") in (4, 14) for p in probs):
+        return False
+
+    def level(g, path):
+        for nm in path:
+            nxt = next((n for n in g["nodes"] if n["name"] == nm and n["kind"] == "graph"), None)
+            if nxt is None:
+                return None
+            g = nxt["graph"]
+        return g
+    for p in probs:
+        a, b = p.get("a", "").split("/"), p.get("b", "").split("/")
+        if len(a) < 2 or b[:len(a) - 1] == a[:-1]:
+            return False                      # producer not nested, or consumer inside the producer's own graph
+        lv = level(case["graph"], a[:-1])
+        if lv is None:
+            return False
+        me = next((n for n in lv["nodes"] if n["name"] == a[-1]), None)
+        if me is None or me["kind"] == "graph":
+            return False
+        mine = set(me.get("outputs", []))
+        if not any(n is not me and mine & set(n.get("outputs", [])) for n in lv["nodes"] if n["kind"] != "graph"):
+            return False                      # no other producer of one of its output names at that level
+    return True
+
+
+MATCHERS = {f.__name__: f for f in (viz_shared_producer_in_container, nested_interrupt_resume, equal_but_distinct_default, stop_iteration_async, waiter_with_edge_default, ambiguous_cycle_entry, empty_map_silent, viz_renamed_boundary, interrupt_handler_wrapped, interrupt_with_edge_default, bound_output_name)}
 
 
 def classify(ctx, case, msg, observed=None):
